@@ -22,9 +22,9 @@ from pathlib import Path
 
 VERIF = Path(__file__).resolve().parent.parent
 SPEC = VERIF / "spec"
-BUILD = VERIF / "build"
-REPLAY = VERIF / "replay"
-EVIDENCE = VERIF / "evidence"
+BUILD = Path(os.environ.get("VERIF_BUILD_DIR", VERIF / "build"))
+REPLAY = Path(os.environ.get("VERIF_REPLAY_DIR", VERIF / "replay"))
+EVIDENCE = Path(os.environ.get("VERIF_EVIDENCE_DIR", VERIF / "evidence"))
 REPO = Path(os.environ.get("VERIF_REPO", "/repo"))
 TLA_JAR = "/opt/veriftools/tla/tla2tools.jar"
 TLA_DEPS = "/opt/veriftools/tla/CommunityModules-deps.jar"
